@@ -113,6 +113,9 @@ def make_world(variant, seed=0):
     w["ds_shared"]["lat"] = (("site",), own("shared_lat", np.array([-1.0, 0.0, 1.0])))
     w["ds_shared"]["wspd"].attrs = {"long_name": "wind at the mast", "units": "knots", "height": "23 m"}
     w["ds_shared"]["dpt"].attrs = {"units": "fathom"}
+    # one time step of a station dataset that has no lon/lat at all (time is left as a scalar coordinate)
+    w["ds_t0"] = xr.Dataset({"efth": (("time", "site", "freq", "dir"), own("t0_efth", data))},
+                            coords={"time": times, "site": np.array([1, 2, 3]), "freq": f.copy(), "dir": d.copy()}).isel(time=0)
     w["hsarr"] = xr.DataArray(own("hsarr", np.array([1.0, 2.0, 3.0])), dims=["site"], coords={"site": np.array([1, 2, 3])})
     w["_buffers"] = buffers
     return w
@@ -296,6 +299,9 @@ def build_ops(w0):
                      lambda: w["ds"].spec.to_netcdf(os.path.join(tmp, "b.nc"), ncformat="NOSUCHFORMAT"),
                      lambda: w["ds"].spec.to_netcdf(os.path.join(tmp, "c.nc"), ncformat="NETCDF3_64BIT", compress=True),
                      lambda: w["ds"].spec.to_swan(os.path.join(missing, "a.swn")),
+                     lambda: w["ds_t0"].spec.to_swan(os.path.join(tmp, "t0.swn")),
+                     lambda: w["ds_t0"].spec.to_swan(os.path.join(tmp, "t0b.swn"), lons=w["lons"], lats=w["lats"]),
+                     lambda: w["ds_t0"].spec.to_octopus(os.path.join(tmp, "t0.oct")),
                      lambda: w["ds"].spec.to_json(os.path.join(missing, "a.json")),
                      lambda: w["ds"].spec.to_ww3(os.path.join(missing, "a.nc"), ncformat="NETCDF3_64BIT"),
                      lambda: w["ds"].isel(site=[0]).spec.to_octopus(os.path.join(missing, "a.oct"))):
